@@ -157,6 +157,17 @@ CLAIMED = {
              'transcribed equality test. Open (kept as statements): idempotence as equality of full states incl. attributes; '
              'the matrix view belongs to C08 (lagged entry law).',
         note=_COMMON_NOTE + 'partial: minimal_idem as state equality and "is_minimal_graph(minimal graph) = true" are stated, not yet proved.'),
+    'C15': dict(
+        technique='Lean 4 proof (the four extension loops folded into a pure insertion model and characterised against the '
+                  'unrolling of the template set over the window) with differential correspondence over all (b, f, iap) combinations',
+        text='Theorem extend_eq_unroll under WF + canonical names + consistent templates, for every window and both values of '
+             'include_all_parents: extend_graph never raises (in particular the unguarded add_edge of the forward loop never '
+             'meets an existing pair), its edges are exactly the minimal-graph edges plus the template copies ending at each t '
+             'of the extension range (with the cut-off when include_all_parents is False), its nodes exactly every variable at '
+             'every lag of the window plus copy endpoints, and the result again satisfies the hypotheses; negative steps raise '
+             'AssertionError. Corollaries (parents shift-invariant, minimal graph preserved, monotone in the window, acyclic '
+             'extension, attributes) are being added; those not yet audited are listed as partial in the evidence.',
+        note=_COMMON_NOTE + 'partial until the corollaries land: only the central theorem and extend_negative are audited.'),
     'C17': dict(
         technique='Lean 4 proof (collapse loop invariant over the sorted edge list: total on every time-series DAG, nodes = '
                   'variables, edge cases characterised) with differential correspondence on lagged DAGs with forced feedback',
@@ -199,7 +210,7 @@ CLAIMED = {
 _P = 'check under construction in this round (model/lane/theorems not yet integrated); not claimed until its central theorem is proved and its lane is clean'
 _P2 = ('model (lean/CG/Model/TS.lean) and lane exist and are clean (./check runs), but the property theorems are still being '
        'proved; not claimed until the central theorem is proved')
-NOT_CLAIMED = {k: _P2 for k in ['C15', 'C16']}
+NOT_CLAIMED = {k: _P2 for k in ['C16']}
 
 try:
     import subprocess
